@@ -3642,7 +3642,10 @@ private:
 
     basic_block_t &cur = get_node(curId);
 
-    if (has_one_child(curId) && has_one_parent(curId)) {
+    // The entry block is never folded into a predecessor (the entry
+    // can have one: a loop back to it, or a block unreachable from it).
+    if (!(curId == entry()) && has_one_child(curId) &&
+        has_one_parent(curId)) {
       basic_block_t &parent = get_parent(curId);
       basic_block_t &child = get_child(curId);
 
